@@ -187,5 +187,5 @@ def add_base_types(U):
     U.assume("A2: bit_vec::BitVec {from_elem, len, index, set, none, or, and} behave as documented (index/or/and panic on bad length)")
     U.assume("A3: BLS signature checks (Signed::verify, AggregateSignature::{add, verify_messages}) are uninterpreted predicates over "
              "(message, key, signature); keccak256 is a deterministic function")
-    U.assume("Schedule accessor contracts (len, quorum_threshold, subquorum_threshold) are proved in unit `leader`; "
-             "Schedule::index/contains = inverse of vec[..].key is the constructor's invariant (assumed)")
+    U.assume("Schedule accessor contracts (len, quorum_threshold, subquorum_threshold, index, contains) are stubs here and are proved in "
+             "unit `leader`, where Schedule::new is proved to establish the invariant they rely on (modularity: callers see contracts)")
